@@ -915,6 +915,14 @@ def wordsplit_rule(chk, db):
             if n in env:
                 return env[n]
             if n == "digits" and "numeric_limits" in (e.get("qual") or ""):
+                # the digits of the *word* type are W; those of a fixed type are what they are (dividing a position by
+                # numeric_limits<size_t>::digits addresses 64-bit words whatever the word type is)
+                m = re.search(r"numeric_limits\s*<\s*(.*?)\s*>\s*::\s*$", e.get("qual") or "")
+                targ = (m.group(1) if m else "").replace("etl::", "").replace("const ", "").strip()
+                fixed = {"size_t": 64, "unsigned long": 64, "unsigned long long": 64, "uint64_t": 64, "unsigned int": 32, "unsigned": 32,
+                         "uint32_t": 32, "unsigned short": 16, "uint16_t": 16, "unsigned char": 8, "uint8_t": 8}
+                if targ in fixed:
+                    return fixed[targ]
                 return env["$W"]
             if n in statics and statics[n] is not None and not e.get("qual"):
                 return ev(statics[n], env, depth + 1)
@@ -1092,7 +1100,7 @@ def cstrn_rule(chk, db):
 
 
 # ---- LITMASK: single-bit masks are built in the word type --------------------------------------------------------------------
-def litmask_rule(chk, db):
+def litmask_rule(chk, db, prefixes=("_bitset/",)):
     """A mask `1 << offset` / `1U << offset` is computed in int / unsigned int whatever the word type is: for 64-bit words an
     offset of 32 or more is out of range for the shift (x86 wraps it to offset - 32), and `1 << 31` sign-extends when it is
     widened. In the bitset's own headers every shift whose left operand is an integer literal of type int or unsigned int and
@@ -1100,7 +1108,7 @@ def litmask_rule(chk, db):
     primitives (set_bit / test_bit / flip_bit). Expected count on the library: zero (control in fixtures/arith_pos.hpp)."""
     n = 0
     for f in db.funcs:
-        if f.get("body") is None or not f["file"].startswith("_bitset/"):
+        if f.get("body") is None or not any(f["file"].startswith(p) for p in prefixes):
             continue
         for x in litmask_sites(f):
             n += 1
@@ -1122,10 +1130,16 @@ def litmask_rule(chk, db):
     return n
 
 
+PROMOTED_ONLY = re.compile(r"^!\(.*is_same(_v)?\s*<.*decltype\s*\(\s*\+")
+
+
 def litmask_sites(f):
-    out = []
-    for x in astx.all_exprs(f, into_lambdas=True):
-        if x.get("k") == "bin" and x["op"] in ("<<", "<<=") and x["l"].get("k") == "int" and (x["l"].get("ty") or "int") in ("int", "unsigned int") \
-                and astx.strip_casts(x["r"]) is not None and astx.strip_casts(x["r"]).get("k") != "int":
-            out.append(x)
-    return out
+    """shifts of an int / unsigned literal by a run-time count; not those in the branch that only types subject to integral
+    promotion reach (the else-branch of `is_same_v<T, decltype(+x)>`): there the operand is promoted to int anyway"""
+    from ..rules import extra10 as _X10
+
+    def pred(x):
+        return x.get("k") == "bin" and x.get("op") in ("<<", "<<=") and (x.get("l") or {}).get("k") == "int" and \
+            (x["l"].get("ty") or "int") in ("int", "unsigned int") and astx.strip_casts(x["r"]) is not None and \
+            astx.strip_casts(x["r"]).get("k") != "int"
+    return [x for x, conds in _X10.guarded_nodes(f, pred) if not any(PROMOTED_ONLY.search(c) for c in conds)]
